@@ -36,7 +36,7 @@ _KERNEL_DEVIATIONS = {
 # Reduce* / ArgMax kernels of onnxruntime on a tensor without elements return the input unreduced for some axes / keepdims
 # combinations (and a following Squeeze then fails): the model (operator document) agrees with torch eager there
 for _n in ("all_dim", "any_dim", "all_dims", "any_dims", "all", "any", "prod", "prod_dim_int", "logsumexp", "argmax", "argmin",
-           "prims_var"):
+           "prims_var", "max_dim", "min_dim"):
     _KERNEL_DEVIATIONS[_n] = lambda a, k: any(d == 0 for d in a[0]["shape"])
 
 
@@ -193,7 +193,7 @@ def families(ctx):
     fams = c08_fams.build()
     if os.environ.get("C08_ONLY"):                            # development aid: only the named families (never set by ./check)
         fams = [f for f in fams if f.name in os.environ["C08_ONLY"].split(",")]
-    cases, meta = {1: [], 2: [], 3: []}, []
+    cases, meta = {1: [], 2: [], 3: [], 5: []}, []
     stats = {}
     for fam in fams:
         n = fam.quick if ctx.tier == "quick" else fam.thorough
@@ -247,6 +247,8 @@ def families(ctx):
                     fl = fam.flags(args, kwargs, [o for o, _ in sk], sk)
                     call = call.replace("{F1}", "true" if fl[0] else "false").replace("{F2}", "true" if fl[1] else "false")
                 obs, wres = {"RErr": "R3Err", "RNone": "R3None"}.get(obs, obs), {"RErr": "R3Err", "RNone": "R3None"}.get(wres, wres)
+            if fam.chk == 5:
+                obs, wres = {"RErr": "R5Err", "RNone": "R5None"}.get(obs, obs), {"RErr": "R5Err", "RNone": "R5None"}.get(wres, wres)
             ctx.case((fam.name,) + tuple(fam.cls(args, kwargs)))
             fixed = _is_fixed(fam.name, sk, args, tr)
             if fam.chk == 1:
@@ -261,7 +263,7 @@ def families(ctx):
     # ---- the model, inside Coq
     shard = 400
     bodies, where = [], []
-    for chk, ty, fn_ in ((1, "case", "disagreeing"), (2, "case2", "disagreeing2"), (3, "case3", "disagreeing3")):
+    for chk, ty, fn_ in ((1, "case", "disagreeing"), (2, "case2", "disagreeing2"), (3, "case3", "disagreeing3"), (5, "case5", "disagreeing5")):
         for i in range(0, len(cases[chk]), shard):
             bodies.append("Local Open Scope string_scope.\nLocal Open Scope Z_scope.\n"
                           f"Definition cases : list {ty} := [\n" + ";\n".join(cases[chk][i:i + shard]) + "].\n"
@@ -269,7 +271,8 @@ def families(ctx):
             where.append((chk, i))
     verdict_at = {}
     res = _coq_shards(ctx, ["OV.Torch.Onnx", "OV.Torch.Aten", "OV.Torch.Check", "OV.Torch.Spec2", "OV.Torch.Aten2", "OV.Torch.Check2",
-                           "OV.Torch.Spec3", "OV.Torch.Aten3", "OV.Torch.Upsample", "OV.Torch.IndexModel", "OV.Torch.Misc4", "OV.Torch.Check3"], bodies)
+                           "OV.Torch.Spec3", "OV.Torch.Aten3", "OV.Torch.Upsample", "OV.Torch.IndexModel", "OV.Torch.Misc4", "OV.Torch.Check3",
+                           "OV.Torch.Group5", "OV.Torch.Check5"], bodies)
     model_ok = True
     for si, (ok, vals, raw) in enumerate(res):
         if not ok or not vals:
@@ -532,13 +535,13 @@ def run(ctx):
                "rationals with IEEE division by zero, the observed float32 output must lie within 2e-4 relative + 1e-5 of the model's value")
     ctx.trust("onnxruntime 1.30 CPU (ORT_DISABLE_ALL) and torch 2.14 eager as oracles; torch.onnx exporter OpRecorder for tracing")
     if os.environ.get("C08_ONLY"):
-        ctx.check_props(extra_files=["Torch/Check.v", "Torch/Check2.v", "Torch/Check3.v"])
+        ctx.check_props(extra_files=["Torch/Check.v", "Torch/Check2.v", "Torch/Check3.v", "Torch/Check5.v"])
         families(ctx)
         ctx.tie_broken("harness", "development-run", "C08_ONLY is set: the sweep and the other families were skipped")
         return
     sw = sweep_start(ctx)                    # runs beside the proof re-check and the modelled families
     try:
-        ctx.check_props(extra_files=["Torch/Check.v", "Torch/Check2.v", "Torch/Check3.v"])      # the correspondence checkers are (re)built with the theorems
+        ctx.check_props(extra_files=["Torch/Check.v", "Torch/Check2.v", "Torch/Check3.v", "Torch/Check5.v"])      # the correspondence checkers are (re)built with the theorems
         families(ctx)
         direct_witnesses(ctx)
     finally:
